@@ -15,6 +15,13 @@ Section Group.
   Definition hm_build (ins : list (str * V)) : list (str * V) :=
     fold_left (fun m kv => hm_insert (fst kv) (snd kv) m) ins [].
 
+  (* HashMap::extend (TmplGroup::import_group: `self.trees.extend(group.trees.clone())`): every entry of the other map is
+     inserted, in that map's iteration order *)
+  Definition hm_extend (m g : list (str * V)) : list (str * V) :=
+    fold_left (fun m kv => hm_insert (fst kv) (snd kv) m) g m.
+  Fixpoint hm_get (k : str) (m : list (str * V)) : option V :=
+    match m with [] => None | (k', v) :: r => if str_eqb k k' then Some v else hm_get k r end.
+
   Fixpoint insert_by_key (x : str * V) (l : list (str * V)) : list (str * V) :=
     match l with
     | [] => [x]
